@@ -129,3 +129,36 @@ Definition ga_newverifier_ok (g : ga_newverifier) : bool :=
      ("cfg.Method: v1.AuthMethodOIDC", ["tokenVerifier := NewTokenVerifier(cfg.OIDC)";
                                         "authVerifier = NewOidcAuthVerifier(cfg.AdditionalScopes, tokenVerifier)"])]%string &&
   (nav_other_statements g =? 0) && (nav_always_pass_mentions g =? 0).
+
+(* ---- legacy ini conversion, Login plugin hook ---------------------------------------------------------------- *)
+Fixpoint ga_pairs_eqb (a b : list (string * string)) : bool :=
+  match a, b with
+  | [], [] => true
+  | (x, u) :: a', (y, v) :: b' => String.eqb x y && String.eqb u v && ga_pairs_eqb a' b'
+  | _, _ => false
+  end.
+
+(* Convert_ServerCommonConf_To_v1: every authentication key of the legacy file lands in the v1 field of the same meaning *)
+Definition ga_legacy_auth_ok (g : list (string * string)) : bool :=
+  ga_pairs_eqb g
+    [("Auth.Method", "v1.AuthMethod(conf.ServerConfig.AuthenticationMethod)");
+     ("Auth.OIDC.Audience", "conf.ServerConfig.OidcAudience");
+     ("Auth.OIDC.Issuer", "conf.ServerConfig.OidcIssuer");
+     ("Auth.OIDC.SkipExpiryCheck", "conf.ServerConfig.OidcSkipExpiryCheck");
+     ("Auth.OIDC.SkipIssuerCheck", "conf.ServerConfig.OidcSkipIssuerCheck");
+     ("Auth.Token", "conf.ServerConfig.Token");
+     ("scope:v1.AuthScopeHeartBeats", "conf.ServerConfig.AuthenticateHeartBeats");
+     ("scope:v1.AuthScopeNewWorkConns", "conf.ServerConfig.AuthenticateNewWorkConns")]%string.
+
+Record ga_loginhook := {
+  lh_calls : Z;                  (* calls of pluginManager.Login in `case *msg.Login:` *)
+  lh_toplevel : bool;            (* ... as an unguarded top-level statement of the case *)
+  lh_m_from_ret : bool;          (* `m = &retContent.Login` *)
+  lh_regctl_args : list string   (* arguments of RegisterControl *)
+}.
+Definition ga_loginhook_ok (g : ga_loginhook) : bool :=
+  (lh_calls g =? 1) && lh_toplevel g && lh_m_from_ret g && ga_strs_eqb (lh_regctl_args g) ["conn"; "m"; "internal"]%string.
+
+(* Manager.Login adopts a plugin's rewritten content by plain assignment to the variable it returns *)
+Definition ga_manager_login_adopt_ok (g : list string) : bool :=
+  ga_strs_eqb g ["content = retContent.(*LoginContent)"]%string.
